@@ -95,6 +95,8 @@ class World:
     def helper_plan(self, req, idx):
         if idx < len(self._plans):
             return self._plans[idx]
+        if self._plans and self._plans[-1].get("persist"):
+            return self._plans[-1]  # the cause does not go away: every further helper of this request meets it too
         return {"kind": "ok", "d": 0.2}
 
     def helper_outcome(self, script, mode, data, args=()):
@@ -134,15 +136,27 @@ def _snapshot(obj):
 
 def _fd_capture():
     """fd 1 / fd 2 of the run fork: in-memory files, so that anything written at descriptor level
-    (os.write, C extensions, a real child) is seen and counted instead of reaching the harness"""
+    (os.write, C extensions, a real child) is seen and counted instead of reaching the harness.
+    fd 0: a pipe nobody ever writes to and whose write end stays open - code that goes around every seam and reads the
+    real descriptor blocks until the run fork's wall-clock guard turns the run into a HARNESS-ERROR (unmodelled),
+    instead of seeing a bogus end of input and being reported as a violation.
+    The working directory is a scratch directory (the daemon's logging option writes files into the cwd)."""
     fds = {}
     for fd in (1, 2):
         m = os.memfd_create("sim-fd%d" % fd)
         os.dup2(m, fd)
         fds[fd] = m
-    dn = os.open(os.devnull, os.O_RDONLY)
-    os.dup2(dn, 0)
-    os.close(dn)
+    r, w = os.pipe()
+    os.dup2(r, 0)
+    os.close(r)
+    fds["stdin_keepalive"] = w
+    try:
+        import tempfile
+        d = tempfile.mkdtemp(prefix="pytrapic-run-")
+        os.chdir(d)
+        fds["cwd"] = d
+    except OSError:
+        pass
     return fds
 
 
@@ -324,6 +338,7 @@ def run_daemon(world, spec):
     world.sched.session = session
     stdin, stdout, stderr = client.make_streams(session, sess_spec.get("stdin_errors", "surrogateescape"))
     saved = (sys.stdin, sys.stdout, sys.stderr, sys.__stdout__, sys.__stderr__, sys.__stdin__)
+    client.install_fd_seams(world, session, stdin, stdout, stderr)
     sys.stdin = sys.__stdin__ = stdin
     sys.stdout = sys.__stdout__ = stdout
     sys.stderr = sys.__stderr__ = stderr
@@ -444,10 +459,21 @@ def execute(spec, send, recv):
                             "message": "%d bytes were written to descriptor 1 behind the reply stream: %r"
                                        % (fd1, _fd_read(fds[1], 80))}
     out["fd1_bytes"], out["fd2_bytes"] = fd1, fd2
+    if fds.get("cwd"):
+        try:
+            left = sorted(os.listdir(fds["cwd"]))
+            if left:
+                out.setdefault("probes_extra", {})["files-written-to-cwd"] = len(left)
+            import shutil
+            os.chdir("/")
+            shutil.rmtree(fds["cwd"], ignore_errors=True)
+        except OSError:
+            pass
     if fd2 and out.get("harness_error"):
         out["fd2_tail"] = _fd_read(fds[2], 2000).decode("utf-8", "replace")
     out["events"] = world.events
     out["probes"] = dict(world.probes)
+    out["probes"].update(out.pop("probes_extra", {}))
     out["faults"] = dict(world.faults)
     if world.clock.jumped:
         world.faults["clock_jump"] += world.clock.jumped
